@@ -301,6 +301,9 @@ class Judge:
             se = res.get("seam") or {}
             cmax = max(se.get("max_abs_c", 0.0) or 0.0, se.get("hist_max_abs_c", 0.0) or 0.0)
             allow = EPS * scale * (1e3 + 10 * np.sqrt(n_updates)) + 100 * EPS * cmax * scale
+            if s.solver_name == "PDCD_WS":
+                # up to 1e6 in-place updates whose count is not observable: a relative 1e-7
+                allow = max(allow, 1e-7 * scale)
             res["buf_err"] = err
             if err > allow:
                 out.append(dict(prop=["C05"], oracle="buffer",
